@@ -344,8 +344,15 @@ async def tcp_case(ctx, stream: bytes, chunk_sizes: list[int], writes: list[str]
                     break
         else:
             judge_reads(ctx, case, stream, True, results)
+            # the peer has only half-closed (write_eof) and keeps reading: nothing failed on the write direction
             for line in writes:
-                await transport.write(line)
+                ctx.clause("write-after-peer-half-close")
+                try:
+                    await transport.write(line)
+                except Exception as exc:  # noqa: BLE001
+                    ctx.violation("write-fails-without-io-error",
+                                  f"write after the peer half-closed (it still reads) raised {type(exc).__name__}: {exc!s:.80}", case)
+                    break
         ctx.clause("disconnect-absorbs-os-errors")
         try:
             await asyncio.wait_for(transport.disconnect(), 10)
@@ -471,10 +478,12 @@ async def reconnect_case(ctx, first_end: str, stream: bytes, writes: list[str]) 
     ctx.case(("reconnect", first_end, stream, tuple(writes)), nontrivial=True, sample=case)
 
 
-async def backpressure_case(ctx, n_writers: int, line_size: int, seed: int) -> None:
+async def backpressure_case(ctx, n_writers: int, line_size: int, seed: int, transport=None, port: int = 0, loops: int = 1,
+                            base_seed: int | None = None):
     """Outgoing back-pressure on a real TCP connection: the peer does not read until hundreds of kB are backed up, several
     tasks call write() concurrently, then the peer drains.  The bytes at the peer must be the lines in the order the
-    write() CALLS were made (every call is stamped before it is awaited)."""
+    write() CALLS were made (every call is stamped before it is awaited).  With `transport` given, the SAME transport
+    object is connected again (possibly under another event loop, see two_loop_backpressure)."""
     import random
 
     from aiomysensors.transport.tcp import TCPTransport
@@ -483,7 +492,8 @@ async def backpressure_case(ctx, n_writers: int, line_size: int, seed: int) -> N
     received = bytearray()
     start_reading = asyncio.Event()
     done = asyncio.Event()
-    case = {"engine": "tcp-backpressure", "writers": n_writers, "line_size": line_size, "seed": seed}
+    case = {"engine": "tcp-backpressure", "writers": n_writers, "line_size": line_size, "seed": seed, "loops": loops,
+            "base_seed": seed if base_seed is None else base_seed}
 
     async def handler(reader, writer) -> None:
         try:
@@ -501,9 +511,12 @@ async def backpressure_case(ctx, n_writers: int, line_size: int, seed: int) -> N
             done.set()
             writer.close()
 
-    server = await asyncio.start_server(handler, "127.0.0.1", 0)
-    transport = TCPTransport("127.0.0.1", server.sockets[0].getsockname()[1])
+    server = await asyncio.start_server(handler, "127.0.0.1", port)
+    port = server.sockets[0].getsockname()[1]
+    if transport is None:
+        transport = TCPTransport("127.0.0.1", port)
     calls: list[str] = []
+    failures: list[str] = []
     try:
         await transport.connect()
         sock = transport.writer.get_extra_info("socket") if getattr(transport, "writer", None) else None
@@ -514,7 +527,11 @@ async def backpressure_case(ctx, n_writers: int, line_size: int, seed: int) -> N
             for j in range(rng.randint(3, 8)):
                 line = f"{index};{j};" + "x" * rng.choice([10, line_size, line_size // 3]) + "\n"
                 calls.append(line)  # stamped at call time
-                await transport.write(line)
+                try:
+                    await transport.write(line)
+                except Exception as exc:  # noqa: BLE001 - nothing fails on this connection
+                    failures.append(f"{type(exc).__name__}: {exc!s:.80}")
+                    return
                 if rng.random() < 0.5:
                     await asyncio.sleep(0)
 
@@ -535,10 +552,13 @@ async def backpressure_case(ctx, n_writers: int, line_size: int, seed: int) -> N
     finally:
         server.close()
         await server.wait_closed()
-    ctx.case(("backpressure", n_writers, line_size, seed), sample=case)
+    ctx.case(("backpressure", n_writers, line_size, seed, loops), sample=case)
     ctx.clause("write-order-under-backpressure")
     want = "".join(calls).encode()
-    if bytes(received) != want:
+    if failures:
+        ctx.violation("write-fails-without-io-error", f"{len(failures)} of the concurrent writes under back-pressure raised although "
+                                                      f"the connection never failed: {failures[0]}", case)
+    elif bytes(received) != want:
         got_lines = bytes(received).decode("utf-8", "replace").split("\n")
         want_lines = "".join(calls).split("\n")
         first = next((i for i, (a, b) in enumerate(zip(got_lines, want_lines)) if a != b), min(len(got_lines), len(want_lines)))
@@ -547,6 +567,23 @@ async def backpressure_case(ctx, n_writers: int, line_size: int, seed: int) -> N
                            f"{got_lines[first][:30] if first < len(got_lines) else None!r}..., the write() call order has "
                            f"{want_lines[first][:30] if first < len(want_lines) else None!r}... ({len(got_lines)} vs {len(want_lines)} lines)",
                       case)
+    return transport, port
+
+
+def two_loop_backpressure(ctx, n_writers: int, line_size: int, seed: int, loops: int = 2) -> None:
+    """The same transport object used in successive sessions that each run under their OWN event loop (an application
+    that calls asyncio.run(main(transport)) again after a lost connection); every session has back-pressured concurrent
+    writers, so anything the transport keeps between sessions (locks, events, queues) is contended under both loops."""
+    transport, port = None, 0
+    for index in range(loops):
+        loop = asyncio.new_event_loop()
+        try:
+            transport, port = loop.run_until_complete(
+                backpressure_case(ctx, n_writers, line_size, seed + index, transport, port, loops, seed))
+            ctx.clause("transport-reused-under-new-event-loop") if index else None
+        finally:
+            loop.run_until_complete(loop.shutdown_asyncgens())
+            loop.close()
 
 
 async def serial_case(ctx, stream: bytes, chunk_sizes: list[int], writes: list[str]) -> None:
@@ -730,7 +767,10 @@ def run_case(ctx, case: dict) -> None:
     elif str(case.get("engine", "")).startswith("cancelled-read-"):
         arun(cancelled_read_case(ctx, bytes.fromhex(case["stream"]), case["pattern"], case["engine"].split("-", 2)[2]))
     elif case.get("engine") == "tcp-backpressure":
-        arun(backpressure_case(ctx, case["writers"], case["line_size"], case["seed"]))
+        if case.get("loops", 1) > 1:
+            two_loop_backpressure(ctx, case["writers"], case["line_size"], case["base_seed"], case["loops"])
+        else:
+            arun(backpressure_case(ctx, case["writers"], case["line_size"], case["seed"]))
     elif case.get("engine") == "tcp-reconnect":
         arun(reconnect_case(ctx, case["first_end"], bytes.fromhex(case["stream"]), case["writes"]))
     elif case.get("engine") == "serial-pty" and not str(case["stream"]).startswith("<"):
@@ -791,6 +831,9 @@ def run(ctx) -> None:
             for i in range(ctx.pick(12, 300) // ctx.shard_count + 1):
                 arun(backpressure_case(ctx, rng.choice([2, 3, 5, 8]), rng.choice([2000, 20000, 70000]),
                                        ctx.seed * 100000 + ctx.shard_index * 1000 + i))
+            for i in range(ctx.pick(3, 40) // ctx.shard_count + 1):
+                two_loop_backpressure(ctx, rng.choice([3, 5, 8]), rng.choice([20000, 70000, 400000]),
+                                      ctx.seed * 100000 + ctx.shard_index * 1000 + 500 + i, loops=rng.choice([2, 2, 3]))
         # pty
         try:
             a, b = os.openpty()
